@@ -69,6 +69,16 @@ CHECKS = {
             "runs are recorded per process and validated by TraceKdPool.tla; max_returns sessions are judged by TraceNN.tla (JoinLimited).",
             "Trusted: TLC; SpecDrivenPool's model of multiprocessing.Pool (fork-time snapshot, map in chunk order). Real pools only for a handful of configurations (fork cost).",
             "TLA+ model checking of all pool schedules (TLC) + schedule replay through the real code + trace validation of real multi-process runs"),
+    "C12": ("DESIGN.md 4/C12",
+            "Neighborhood.tla: levenshtein_neighbors / hamming_neighbors as loop machines (one action per loop iteration, the three "
+            "duplicate-suppression rules as skip branches), nndist_hamming's cascade, next_nearest_neighbors and the pair utilities; TLC "
+            "checks GenExact, GenOnce, HGenExact, NbrIsDist1, NndExact, NnnExact, UtilExact for all strings up to a length bound on 1-4 "
+            "letter alphabets and all small reference sets, and rejects three skip-rule mutants. Every terminal behaviour is replayed on "
+            "the real functions under several concrete alphabets; sessions with the default 20-letter alphabet are validated by "
+            "TraceNeighborhood.tla (which steps the loop machine and compares the yields).",
+            "Trusted: TLC, Strings.tla. On 20 letters the comparison is with the constructive neighbourhood sets, shown equal to "
+            "{y : Lev(x,y)=1} only on the small universes.",
+            "TLA+ model checking (TLC) + spec-to-code replay + trace validation"),
 }
 
 NOT_YET = {
